@@ -26,8 +26,10 @@ _c16 += [
 ] + [H("c16_cross_%s" % v, "c16", ROOT + "::c16", shape="%s x each of the 6 other scalar variants" % v, timeout=600)
      for v in ["null", "int", "float", "bool", "string", "timestamp", "interval"]] + [
     H("c16_int_float_numeric", "c16", ROOT + "::c16", shape="Int vs Float numeric order"),
-    H("c16_tuple_int_float", "c16", ROOT + "::c16", shape="Vec<Value> [Int,Float] pair (group key / DISTINCT tuple)", tier="thorough", timeout=1500),
-    H("c16_pair_array1_array1", "c16", ROOT + "::c16", shape="pair Array[Int;1] x Array[Int;1]", tier="thorough", timeout=1500),
+    H("c16_tuple2_null_int", "c16", ROOT + "::c16", shape="Vec<Value> tuples [NULL, Int] (stack-held elements): group key / DISTINCT row", timeout=900, cost=100),
+    H("c16_tuple2_int_float", "c16", ROOT + "::c16", shape="Vec<Value> tuples [Int, Float] (stack-held elements)", tier="thorough", timeout=1800, cost=900),
+    # not registered (kept in kani/c16.rs): c16_tuple_int_float (Vec<Value> pair: no verdict in 1500 s) and
+    # c16_pair_array1_array1 (its unwinding assertion fails at unwind 4; at unwind 6 no verdict in 1500 s)
 ]
 PROPS["C16"] = dict(
     harnesses=_c16,
@@ -35,11 +37,11 @@ PROPS["C16"] = dict(
                "fnv::FnvHasher (the DISTINCT hasher)", "chrono DateTime/TimeDelta Eq/Ord/Hash as used by Value"],
     bounds={"int": "all i64", "float": "all f64 bit patterns (NaN, +-0, +-inf, subnormals)", "string": "ASCII, length 0..2",
             "timestamp": "|instant| < 2^40 s, any nanosecond, any offset within +-24h", "interval": "|secs| < 2^50, any nanosecond",
-            "array": "thorough tier only: INT elements, length 1", "unwind": 4},
+            "unwind": 4},
     stubs=[],
     assumptions=["std's slice/Vec lexicographic Ord and derive(Ord/Hash) expansion are trusted for nesting deeper than the bound",
                  "consumers (BTreeMap, hashbrown, sort) are correct given a lawful order"],
-    outside=["arrays longer than 1 / nested arrays (symbolic execution of the recursive Value glue does not terminate within budget)",
+    outside=["ARRAY values (symbolic execution of the recursive Value glue does not terminate within budget, also with stack-held elements) and tuples other than [NULL, Int] / [Int, Float]: element-wise laws are shown, their lifting to slices by std's lexicographic Ord/Eq/Hash is assumed beyond those two shapes",
              "strings longer than 2 bytes, non-ASCII", "SipHash (RandomState) itself: equal byte streams are shown instead, which implies equal hashes for every Hasher"],
 )
 
@@ -62,41 +64,47 @@ _c03_quick = set(_names("c03_arith_", ["add_int_int", "sub_int_int", "add_float_
                  _names("c03_bool_", ["bool_bool", "bool_null"]) +
                  ["c03_unary_neg_int", "c03_unary_bool", "c03_unary_null"] +
                  _names("c03_in_", ["int_int", "null_int", "int_null"]) +
-                 ["c03_fn_abs_int", "c03_subscript_len1"])
+                 ["c03_fn_abs_int", "c03_subscript_len1", "c03_case_bool", "c03_cast_int_int", "c03_cast_int_float"] + _names("c03_select_filter_", ["bool", "null", "int"]))
 
-_c03_all = (_names("c03_arith_", ["add_int_int", "sub_int_int", "mul_int_int", "div_int_int", "add_float_float", "sub_float_float", "mul_float_float", "div_float_float",
+_c03_all = (_names("c03_arith_", ["add_int_int", "sub_int_int", "mul_int_int", "div_int_int", "add_float_float", "sub_float_float",
                                   "null_null", "null_int", "int_null", "null_float", "float_null", "null_string", "bool_null", "null_timestamp", "interval_null",
                                   "int_float", "float_int", "int_bool", "bool_bool", "string_string", "string_int", "int_string", "float_bool", "int_interval", "timestamp_int"]) +
-            _names("c03_cmp_", ['int_int_eq_ne', 'int_int_gt_ge', 'int_int_lt_le', 'float_float_eq_ne', 'float_float_gt_ge', 'float_float_lt_le', 'bool_bool_eq_lt', 'string1_string1_eq_lt', 'string1_string1_ne_ge', 'string0_string1_gt_le', 'timestamp_timestamp_eq_lt', 'interval_interval_ne_gt', 'null_null_eq_ne', 'null_int_eq_ne', 'null_int_lt_ge', 'int_null_eq_ne', 'int_null_gt_le', 'float_null_ne_ge', 'null_string_ne_lt', 'bool_null_ne_gt', 'timestamp_null_ne_ge', 'int_float_gt_lt', 'float_int_gt_eq', 'int_bool_eq_lt']) +
+            _names("c03_cmp_", ['int_int_eq_ne', 'int_int_gt_ge', 'int_int_lt_le', 'float_float_eq_ne', 'float_float_gt_ge', 'float_float_lt_le', 'bool_bool_eq_lt', 'string1_string1_eq_lt', 'string1_string1_ne_ge', 'string0_string1_gt_le', 'interval_interval_ne_gt', 'null_null_eq_ne', 'null_int_eq_ne', 'null_int_lt_ge', 'int_null_eq_ne', 'int_null_gt_le', 'float_null_ne_ge', 'null_string_ne_lt', 'bool_null_ne_gt', 'timestamp_null_ne_ge', 'int_float_gt_lt', 'float_int_gt_eq', 'int_bool_eq_lt']) +
             _names("c03_is_", ["null_null", "int_null", "null_int", "float_null", "string_null", "bool_null", "timestamp_null", "interval_null", "int_int", "bool_bool", "string_string"]) +
             _names("c03_bool_", ["bool_bool", "bool_null", "null_bool", "null_null", "int_bool", "bool_string"]) +
             ["c03_unary_neg_int"] + _names("c03_unary_", ["null", "float", "bool", "string", "int", "interval"]) +
             _names("c03_in_", ["int_int", "null_int", "int_null", "null_null", "float_float", "string_string", "bool_bool"]) +
             _names("c03_subscript_", ["len0", "len1", "int_int", "null_int", "string_int", "array_null", "array_float", "array_string"]) +
             _names("c03_fn_", ["abs_int", "abs_other", "wrong_arity_or_type"]) +
-            ["c03_cast_interval"])
+            ["c03_cast_interval"] +
+            _names("c03_select_filter_", ["bool", "null", "int"]) +
+            _names("c03_case_", ["bool", "null", "int"]) + _names("c03_fn_array_length_", ["0", "1"]) +
+            _names("c03_cast_", ["int_int", "bool_bool", "float_float", "int_bool", "int_float", "bool_int", "null_int"]))
 
 _C03_COST = {"c03_cmp_int_null_gt_le": 400, "c03_subscript_len1": 350, "c03_subscript_len0": 300, "c03_arith_div_int_int": 400, "c03_arith_mul_int_int": 400, "c03_arith_add_float_float": 160, "c03_arith_sub_float_float": 160,
              "c03_arith_mul_float_float": 300, "c03_arith_div_float_float": 400, "c03_fn_abs_int": 120}
 
 PROPS["C03"] = dict(
-    harnesses=[H(n, "execution", EX, shape=n[4:].replace("_", " "), tier="quick" if n in _c03_quick else "thorough", timeout=900, cost=_C03_COST.get(n, 60)) for n in _c03_all],
+    harnesses=[H(n, "execution", EX, shape=n[4:].replace("_", " "), tier="quick" if n in _c03_quick else "thorough", timeout=900, cost=_C03_COST.get(n, 60), solo=(n == "c03_subscript_len1")) for n in _c03_all],
     functions=["ExpressionExecutionEngine::evaluate (src/execution/expression_execution.rs: Compare, NullableCompare, Arithmetic, UnaryArithmetic, BooleanOperation, In, Case, ArrayElementAccess, TypeConversion, FunctionCall abs/greatest/least/pow/array_length)",
-               "Value::map_same_type / Value::map (src/model.rs)", "derived Value ordering as used by Compare"],
+               "Value::map_same_type / Value::map (src/model.rs)", "derived Value ordering as used by Compare",
+               "SelectExecutionEngine::execute (src/execution/select_execution.rs): WHERE -> projection -> row assembly (c03_select_filter_*)"],
     bounds={"operands": "all i64 / all f64 bit patterns / bool / ASCII strings of length <= 2 / instants |t| < 2^40 s any offset / intervals < 2^40 s",
             "division and multiplication": "divisor / multiplier restricted to -16..=16 (64-bit divider circuits do not finish); dividend / multiplicand full range",
             "operators": "symbolic within each family (4 arithmetic, 6 comparison, IS/IS NOT, AND/OR, IN/NOT IN)",
-            "lists": "IN lists and CASE with exactly 1 entry, arrays of length 0..1, strings of length 0..1, functions of one argument (every loop of the evaluator may run once: unwind 2; unwind 3 does not conclude in 15 min)",
-            "nesting": "one operator over arbitrary operand values"},
+            "lists": "IN lists and CASE (one WHEN clause + ELSE) with exactly 1 entry, arrays of length 0..1, strings of length 0..1, functions of one argument (every loop of the evaluator may run once: unwind 2; unwind 3 does not conclude in 15 min)",
+            "nesting": "one operator over arbitrary operand values",
+            "select engine": "one projection (a column), WHERE condition a column holding any BOOL / NULL / any INT, no DISTINCT"},
     stubs=_EVAL_STUBS,
     assumptions=["operand values reach evaluate through a harness ColumnProvider keyed by scope (column-name binding through hash maps is outside the claim)",
                  "each operator is checked over arbitrary operand values, which is what deeper nesting can produce; error propagation through >1 level is not unrolled"],
-    outside=["column-name binding (HashMap providers), SELECT * expansion and projection naming (C03's row-level clauses: see select-engine harnesses when present)",
+    outside=["column-name binding (HashMap providers), SELECT * expansion, the naming rule for unaliased projections (parser_tree_converter), two or more projections (the projection loop needs a second iteration)",
              "regexp_matches, upper/lower, array_unique (BTreeSet), sqrt/pow on REAL (CBMC's float transcendental models are not bit-precise), EXTRACT / date_trunc (chrono calendar code)",
              "timestamp <-> string coercion in comparisons (chrono's format parser)", "functions of two or more arguments (greatest, least, pow, array_cat/append/prepend, make_timestamp): the argument loop needs a second iteration",
              "IN lists with two or more entries, strings longer than 1 byte",
+             "REAL * REAL and REAL / REAL with both operands symbolic (c03_arith_mul_float_float / div_float_float, kept in the harness file: the 64-bit float multiplier / divider circuits give no verdict in 900 s), TIMESTAMP vs TIMESTAMP comparison (c03_cmp_timestamp_timestamp_eq_lt: no verdict in 900 s)",
              "arrays longer than 1 element in subscripts (one-level array clone stub, unwind 2)",
-             "CASE, array_length, casts other than INTERVAL::int and timestamp comparisons: their harnesses (kept in /verif/kani/execution.rs: c03_case_*, c03_fn_array_length, c03_cast_identity_and_mismatch, c03_cmp_timestamp_*) exhaust memory / 15 min in CBMC and are not registered"],
+             "casts from or to TEXT (string parsing / Display), INTERVAL::real; CASE with two or more WHEN clauses; timestamp comparisons (c03_cmp_timestamp_*: no verdict in 900 s)"],
 )
 
 # ------------------------------------------------------------------------------------- C04 / C15
@@ -105,6 +113,8 @@ _fold = []
 for _k, _label in [("sum_int", "SUM over INT"), ("sum_float", "SUM over REAL"), ("avg_int", "AVG over INT"), ("avg_float", "AVG over REAL")]:
     for _pat, _pl in [("vvv", "no NULL"), ("nvv", "NULL arrives first"), ("vnv", "NULL in the middle"), ("nnn", "all NULL")]:
         _quick = _k.endswith("_int") and _pat in ("vvv", "nvv")
+        if _k.endswith("_float") and _pat == "vvv":
+            continue    # three symbolic REAL additions in three arrival orders: no verdict in 900 s on a loaded machine (kept in the harness file)
         _fold.append(("c04_fold_%s_%s" % (_k, _pat), "%s, 3 rows, %s" % (_label, _pl), "quick" if _quick else "thorough"))
 for _k in ["bool_and", "bool_or"]:
     for _pat, _pl in [("vvv", "no NULL"), ("nvv", "NULL arrives first"), ("nnn", "all NULL")]:
@@ -113,7 +123,7 @@ _fold += [("c04_fold_percentile_n1", "PERCENTILE(p) over 1 INT, every p in [0,1]
 _C15_QUICK = ("c04_fold_sum_int_nvv", "c04_fold_avg_int_vvv", "c04_fold_bool_and_nvv")
 _FOLD_FUNCS = ["GroupAggregator::default / update / update_value / is_null (src/execution/aggregate_execution.rs)",
                "Value::modify_same_type_numeric_nullable, Value::map_numeric, Value::default_value (src/model.rs)", "slice sort of Vec<Value> (PERCENTILE)"]
-_FOLD_BOUNDS = {"group": "3 rows; NULL pattern concrete per harness (no NULL / NULL first / NULL in the middle / all NULL), values symbolic", "INT / REAL values": "integers with |x| <= 2^20 (every sum and square exact in i64 and f64); overflow harnesses: full i64",
+_FOLD_BOUNDS = {"group": "3 rows; NULL pattern concrete per harness (no NULL / NULL first / NULL in the middle / all NULL; REAL arguments: at least one NULL among the 3 rows), values symbolic", "INT / REAL values": "integers with |x| <= 2^20 (every sum and square exact in i64 and f64); overflow harnesses: full i64",
                 "percentile p": "every f64 in [0, 1]", "orders": "arrival order as given, reversed and rotated", "unwind": "2 (PERCENTILE: 4)"}
 _FOLD_ASSUME = ["driver protocol copied from update_aggregate / execute_result: aggregator created lazily from the first arriving value, update() only for non-NULL values, NULL sets the cell only while is_null(), update_value() before a table is shown",
                 "the group table around the fold (BTreeMap<GroupKey, HashMap<usize,_>>, column-wise result assembly, HAVING) is outside the claim: symbolic execution of the engine does not conclude for two rows (DESIGN.md probe 14)"]
@@ -139,13 +149,18 @@ PROPS["C06"] = dict(
         ("c06_noise_select", "SELECT, no join"), ("c06_noise_select_join", "SELECT with joined table"),
         ("c06_noise_aggregate_follow", "aggregate, update+result (follow mode)"), ("c06_noise_aggregate_follow_join", "aggregate follow mode with joined table"),
         ("c06_noise_aggregate_batch", "aggregate, update-only (batch mode)"), ("c06_noise_aggregate_batch_join", "aggregate batch mode with joined table"),
-        ("c06_admitted_reaches_engine", "liveness of the stubs: an admitted line reaches the select engine")]],
-    functions=["ExecutionEngine::execute, execute_select, execute_aggregate, execute_aggregate_update, update_limit (src/execution/execution_engine.rs)", "Row::any_result (src/data_model.rs)"],
-    bounds={"non-admitted row": "0..1 columns, all NULL", "engine state": "arbitrary LIMIT counter (u8), LIMIT absent or any u8, DISTINCT / OUTER flags symbolic", "step": "one line from an arbitrary state (inductive step: a line without trace leaves every later step's pre-state unchanged)"},
+        ("c06_admitted_reaches_engine", "liveness of the stubs: an admitted line reaches the select engine")]] + [
+        H(n, "data_model", "data_model::verif_kani", shape=sh, timeout=900, cost=100) for (n, sh) in [
+        ("c06_admit_both_values", "admission rule: two INT columns, both obtain a value; NOT NULL flags symbolic"), ("c06_admit_first_null", "admission rule: first column NULL, second a value"),
+        ("c06_admit_second_null", "admission rule: first a value, second NULL"), ("c06_admit_both_null", "admission rule: both NULL")]],
+    functions=["ExecutionEngine::execute, execute_select, execute_aggregate, execute_aggregate_update, update_limit (src/execution/execution_engine.rs)", "Row::any_result (src/data_model.rs)",
+               "TableDefinition::extract, ParsingInput::new, ColumnParsing::extract (src/data_model.rs): the admission rule (c06_admit_*)"],
+    bounds={"non-admitted row": "0..1 columns, all NULL", "engine state": "arbitrary LIMIT counter (u8), LIMIT absent or any u8, DISTINCT / OUTER flags symbolic", "step": "one line from an arbitrary state (inductive step: a line without trace leaves every later step's pre-state unchanged)",
+            "admission rule": "tables of two INT columns without patterns; each column obtains its DEFAULT (any i64) or NULL (concrete per harness), NOT NULL flags symbolic; unwind 3"},
     stubs=_ENGINE_STUBS,
     assumptions=["one inductive step covers insertion/deletion of noise lines at any position: stated as an argument, not separately checked",
                  "what extract() returns for concrete noise text (regex matching) is environment"],
-    outside=["the admission rule inside TableDefinition::extract (part 1 of the statement): its harnesses (c06_admission_*, kept in /verif/kani/data_model.rs) push / clear heap-held Vec<Value> rows and do not conclude in 25 min",
+    outside=["the admission rule for tables of three or more columns, columns fed by patterns (a value from a regex group instead of a DEFAULT), TRIM; the heap-container variants (c06_admission_*, kept in the harness file) do not conclude in 25 min",
              "FileExecutor statistics counters, follow mode's screen clearing", "the joined-file loader (same execute path through SELECT *)"])
 PROPS["C07"] = dict(
     harnesses=[H(n, "execution_engine", EE, shape=sh, timeout=600, env_stubbed=True, cost=60) for (n, sh) in [
@@ -153,26 +168,32 @@ PROPS["C07"] = dict(
         ("c07_limit_step_select_nullonly", "SELECT LIMIT n>=1, rows may consist of NULLs only"),
         ("c07_limit_step_select_zero", "SELECT LIMIT n>=0 (includes LIMIT 0)"),
         ("c07_limit_step_join", "SELECT .. JOIN LIMIT n>=1, <=1 row per line"),
-        ("c07_no_limit_step", "no LIMIT"), ("c07_aggregate_result_truncated", "batch aggregate: final table cut to n rows")]],
-    functions=["ExecutionEngine::execute (Select arm, aggregate_result arm), update_limit (src/execution/execution_engine.rs)"],
+        ("c07_no_limit_step", "no LIMIT"), ("c07_aggregate_result_truncated", "batch aggregate: final table cut to n rows")]] + [
+        H("c07_select_distinct3_limit2", "execution", EX, shape="real SelectExecutionEngine, DISTINCT LIMIT 2, rows x, x, y", timeout=1800, env_stubbed=True, cost=900)],
+    functions=["ExecutionEngine::execute (Select arm, aggregate_result arm), update_limit (src/execution/execution_engine.rs)",
+               "SelectExecutionEngine::execute + DistinctValues::add (src/execution/select_execution.rs, helpers.rs): a duplicate does not use up the LIMIT (c07_select_distinct3_limit2)"],
     bounds={"n": "any u8", "rows handed out before": "any count allowed by the protocol (< n, or 0 for n = 0)", "rows per line": "0..1, each NULL-only or not (join fan-out of 2+ rows per line needs unwind 3+, which does not conclude: outside the bound); final aggregate table: 0..2 rows", "step": "one line from an arbitrary reachable LIMIT state (inductive)"},
     stubs=_ENGINE_STUBS,
     assumptions=["the executor offers another line only while reached_limit has not been reported (FileExecutor / FollowFileExecutor loops: see C12 when registered)",
                  "the engines below the dispatcher return an arbitrary 0..3 rows per line (contract stub)"],
     outside=["'consumes no input beyond the n-th row' at the file level: FileExecutor's break leaves only the current file's loop (multi-file runs) and LIMIT 0 still reads one line",
-             "aggregate statements in follow mode (table refreshed per line)", "DISTINCT + LIMIT interplay inside SelectExecutionEngine (stubbed here)"])
+             "aggregate statements in follow mode (table refreshed per line)",
+             "DISTINCT + LIMIT inside SelectExecutionEngine beyond the one scenario decided (three rows x, x, y of one INT column under LIMIT 2); HAVING + LIMIT inside AggregateExecutionEngine::execute_result (BTreeMap group table: not reachable)"])
 
 # ------------------------------------------------------------------------------------------- C08
 PROPS["C08"] = dict(
-    claimed=False,
-    harnesses=[H("c08_distinct_one_column", "execution", EX, shape="3 tuples x 1 column (NULL or INT 0..2)", timeout=900, cost=200),
-               H("c08_distinct_two_columns", "execution", EX, shape="3 tuples x 2 columns (NULL or INT 0..2)", timeout=900, cost=400)],
-    functions=["DistinctValues::new / add (src/execution/helpers.rs)", "derived Value / Vec<Value> equality and clone as used by the set"],
-    bounds={"tuples": "3 per run, 1 or 2 columns", "column values": "NULL or INT 0..2 (symbolic)", "set": "Vec-backed shim of FnvHashSet: membership by ==; that equal tuples hash equally under FnvHasher is decided in C16 (c16_tuple_int_float, scalar pair laws)"},
-    stubs=["fnv::FnvHashSet -> /verif/kani/shim.rs HashSet (contract: insert/contains by ==)", "alloc::fmt::format -> empty string"],
-    assumptions=["hashbrown's correctness given Eq/Hash-consistent keys (trusted base)"],
-    outside=["the select path around the set (SelectExecutionEngine::execute evaluates projections through the evaluator; with two projections its loops need unwind 3, which does not conclude) - the call `if distinct && !add(..) { return None }` is read, not decided",
-             "the aggregate path (DISTINCT consulted only inside `if let Some(having)`, its memory surviving refreshes): engine level, not reachable", "tuples with REAL / TEXT columns (C16 decides their Eq/Hash laws)"])
+    harnesses=[H("c08_select_distinct2_%s" % v, "execution", EX, shape="2 rows x 1 column, both %s" % v.upper(), timeout=900, env_stubbed=True, cost=200,
+                 tier="quick" if v in ("int", "null", "float") else "thorough") for v in ["int", "null", "float", "bool", "string"]] +
+              [H("c08_select_distinct3_int", "execution", EX, shape="3 rows x, x, y of one INT column", tier="thorough", timeout=1800, env_stubbed=True, cost=900)],
+    functions=["SelectExecutionEngine::execute (src/execution/select_execution.rs): projection -> DISTINCT consultation -> row", "DistinctValues::new / add (src/execution/helpers.rs)",
+               "derived Value / Vec<Value> equality as used by the set", "ExpressionExecutionEngine::evaluate (column access arm)"],
+    bounds={"rows": "2 (any two values of one variant) or 3 (x, x, y)", "columns": "1 projection", "column values": "any INT / any REAL bit pattern / NULL / BOOL / ASCII string of length 1",
+            "set": "Vec-backed shim of FnvHashSet: membership by ==; that equal values hash equally is decided in C16", "unwind": 2},
+    stubs=_EVAL_STUBS + ["fnv::FnvHashSet -> /verif/kani/shim.rs HashSet (contract: insert/contains by ==)"],
+    assumptions=["hashbrown's correctness given Eq/Hash-consistent keys (trusted base)", "rows reach the engine through a harness ColumnProvider keyed by scope"],
+    outside=["tuples of two or more columns (the projection loop and the slice comparison need a second iteration: unwind 3 does not conclude) - so a fingerprint that only collides across columns is not seen",
+             "the aggregate path (DISTINCT consulted only inside `if let Some(having)`, its memory surviving refreshes): BTreeMap group table, not reachable",
+             "more than one stored tuple in the set (the membership scan needs a second iteration)", "DistinctValues alone over 3 tuples x 1..2 columns (c08_distinct_one_column / two_columns, kept in the harness file: no verdict in 15 min)"])
 
 # ------------------------------------------------------------------------------------------- C13
 PA = "parsing::parser::verif_kani"
@@ -193,32 +214,34 @@ PROPS["C13"] = dict(
 DM = "data_model::verif_kani"
 _DM_STUBS = ["ParsingInput built directly by the harness = the environment's answer: pattern matched or not, 1..3 split fields with symbolic bytes, or a constructed JSON document (regex engine and serde_json parser are environment)",
              "std HashMap of data_model.rs -> /verif/kani/shim.rs", "regex::Regex::new -> Err (never reached: tables have no patterns)", "chrono Local time-zone lookups -> arbitrary answers", "alloc::fmt::format -> empty string"]
+_c01 = [("c01_int_field_default", "INT DEFAULT d on split field 1: pattern matched, field present", "quick"), ("c01_int_field_nodefault", "INT on split field 1: matched, field present", "quick"),
+        ("c01_int_nofield_default", "INT DEFAULT d: matched, field absent", "quick"), ("c01_int_nofield_nodefault", "INT: matched, field absent", "thorough"),
+        ("c01_int_unmatched_default", "INT DEFAULT d: pattern did not match", "quick"), ("c01_int_unmatched_nodefault", "INT: pattern did not match", "thorough"),
+        ("c01_bool_field", "BOOLEAN on a present field", "quick"), ("c01_bool_nofield", "BOOLEAN on an absent field", "quick"),
+        ("c01_text_field1_of_2", "TEXT on field 1 of two symbolic fields", "quick"), ("c01_text_field2_of_2", "TEXT on field 2 of two symbolic fields", "thorough"),
+        ("c01_int_field1_of_2", "INT on field 1 of two symbolic fields", "thorough"), ("c01_int_field2_of_2", "INT on field 2 of two symbolic fields", "quick"),
+        ("c01_array1_field", "INT[] from one listed group, field present", "quick"), ("c01_array1_nofield", "INT[] from one listed group, field absent", "thorough")]
 PROPS["C01"] = dict(
-    claimed=False,
-    harnesses=[H(n, "data_model", DM, shape=sh, timeout=900, cost=c) for (n, sh, c) in [
-        ("c01_split_int_default", "INT column with DEFAULT on split field 1, pattern/field present or not", 300),
-        ("c01_split_int_nodefault", "INT column without DEFAULT on split field 1, pattern/field present or not", 300),
-        ("c01_split_boolean", "BOOLEAN column on split field 1", 200),
-        ("c01_split_own_field", "INT column on split field g (g symbolic in 1..2) of a 3-entry split", 300),
-        ("c01_split_array", "INT[] column from fields 1 and 2", 400)]],
-    functions=["TableDefinition::extract, ColumnParsing::extract, ColumnParsing::extract_using_regex (Split arm), ColumnDefinition::default_value (src/data_model.rs)", "ValueType::parse INT arm (src/model.rs)"],
-    bounds={"fields": "<= 2 bytes over {0-9, -, +, space, x}", "split result": "1..3 entries", "columns": "1..2 per table"},
-    stubs=_DM_STUBS,
-    assumptions=["the Captures arm of extract_using_regex is a textual twin of the Split arm and is not executed (regex::Captures has no public constructor)"],
-    outside=["the regex engine (leftmost match, group numbering, split)", "REAL / TIMESTAMP / INTERVAL literal parsing, TRIM, timestamp assembly from parts (see C09 for create_timestamp)", "CREATE TABLE parsing", "fields longer than 2 bytes"])
+    harnesses=[H(n, "data_model", DM, shape=sh, tier=t, timeout=600, cost=30) for (n, sh, t) in _c01],
+    functions=["ColumnParsing::extract (Regex and MultiRegex-array arms), ColumnParsing::extract_using_regex (Split arm), ColumnDefinition::default_value (src/data_model.rs)", "ValueType::parse INT / TEXT arms (src/model.rs), i64::from_str"],
+    bounds={"fields": "0..1 bytes over {0-9, -, +, space, x} (unwind 2: the digit loop of i64::from_str may run once)", "split result": "1..3 entries (count concrete per harness)", "column": "one column: INT / BOOLEAN / TEXT / INT[] of one group; DEFAULT any i64 or absent",
+            "shape": "pattern matched or not, field present or not, DEFAULT present or not: concrete per harness; field bytes and DEFAULT value symbolic"},
+    stubs=_DM_STUBS + ["every container the code only reads (split fields, the pattern->result map, the group list) has its buffer in a stack array (shim::HashMap::from_raw_entries, Vec::from_raw_parts)"],
+    assumptions=["the Captures arm of extract_using_regex is a textual twin of the Split arm and is not executed (regex::Captures has no public constructor)",
+                 "what the regex engine hands over (leftmost match, group numbering, split) is environment: the harness plays it"],
+    outside=["the regex engine (leftmost match, group numbering, split)", "REAL / TIMESTAMP / INTERVAL literal parsing, TRIM, timestamp assembly from parts (see C09 for create_timestamp)", "CREATE TABLE parsing",
+             "fields longer than 1 byte (multi-digit and signed literals, numeric extremes): with unwind 4 the drop glue of Value is unrolled 4 levels at every drop site and the harness does not conclude in 25 min",
+             "array columns of two or more groups (the group loop needs a second iteration)", "several patterns per table", "the heap-container variants of these harnesses (c01_split_*, kept in the harness file) do not conclude"])
+_c02 = [('c02_int_from_i64', 'quick'), ('c02_int_from_u64', 'quick'), ('c02_int_from_f64_default', 'quick'), ('c02_int_from_null_default', 'quick'), ('c02_int_from_bool', 'thorough'), ('c02_int_from_string_default', 'thorough'), ('c02_real_from_i64', 'thorough'), ('c02_real_from_u64', 'quick'), ('c02_real_from_f64', 'quick'), ('c02_real_from_null_default', 'thorough'), ('c02_real_from_string', 'thorough'), ('c02_bool_from_bool', 'quick'), ('c02_bool_from_i64_default', 'thorough'), ('c02_bool_from_null', 'thorough'), ('c02_text_from_string', 'quick'), ('c02_text_from_i64_default', 'quick'), ('c02_text_from_null_default', 'thorough'), ('c02_nested_int_from_i64', 'quick'), ('c02_nested_int_from_null', 'thorough')]
 PROPS["C02"] = dict(
-    claimed=False,
-    harnesses=[H(n, "data_model", DM, shape=sh, timeout=900, cost=c) for (n, sh, c) in [
-        ("c02_json_index_int", "{[i]} => INT on [leaf, \"\"], leaf any JSON scalar", 400), ("c02_json_index_int_default", "{[i]} => INT DEFAULT 7", 400),
-        ("c02_json_index_real", "{[i]} => REAL", 400), ("c02_json_index_real_default", "{[i]} => REAL DEFAULT 7.0", 400),
-        ("c02_json_index_boolean", "{[i]} => BOOLEAN", 300), ("c02_json_index_text", "{[i]} => TEXT", 300), ("c02_json_index_text_default", "{[i]} => TEXT DEFAULT ''", 300),
-        ("c02_json_nested_path", "{[i][j]} => INT on [[leaf, true], 5] via JsonAccess::from_linear", 400)]],
-    functions=["JsonAccess::get_value (Array steps, recursion), JsonAccess::from_linear, ColumnParsing::extract Json branch (src/data_model.rs)", "ValueType::convert_from_json (src/model.rs)"],
-    bounds={"document": "JSON arrays of depth <= 2, <= 2 elements; leaf = null | bool | any i64 | any u64 | any finite f64 | string", "index": "0..2 per step", "DEFAULT": "present or not"},
-    stubs=_DM_STUBS,
-    assumptions=[],
-    outside=["serde_json::from_str (the JSON parser: duplicate keys, numbers beyond f64, invalid JSON)", "object field steps: serde_json's Map is an IndexMap over hashbrown, which cannot be shimmed",
-             "CONVERT (string -> typed literal parsing)", "independence from regex columns of the same table"])
+    harnesses=[H(n, "data_model", DM, shape=n[4:].replace("_", " ") + ("; path {[i]} on [leaf, \"\"], i in 0..=2" if "nested" not in n else "; path {[i0][i1]} on [[leaf, true], 5]"), tier=t, timeout=600, cost=40) for (n, t) in _c02],
+    functions=["ColumnParsing::extract Json arm, JsonAccess::get_value (Array steps, recursion) (src/data_model.rs)", "ValueType::convert_from_json, serde_json::Value::as_i64 / as_f64 / as_bool / as_str / as_array (src/model.rs, serde_json)"],
+    bounds={"document": "JSON arrays of depth <= 2 with 2 elements, built by the harness (stack-backed); leaf kind concrete per harness: null | bool | any i64 | any u64 | any finite f64 | empty string; payload symbolic",
+            "index": "0..=2 per step (symbolic): the leaf, another element, absent", "column": "INT / REAL / BOOLEAN / TEXT, DEFAULT present or not (concrete per harness)", "unwind": 2},
+    stubs=_DM_STUBS + ["the JSON document and the column's path are stack-backed (Vec::from_raw_parts / Box::from_raw over stack objects)"],
+    assumptions=["serde_json::from_str hands over the document the text denotes (the JSON parser is environment)"],
+    outside=["serde_json::from_str (the JSON parser: duplicate keys, numbers beyond f64, invalid JSON)", "object field steps: serde_json's Map is an IndexMap over hashbrown - so an index step meeting an object is not seen",
+             "CONVERT (string -> typed literal parsing)", "independence from regex columns of the same table", "non-empty strings, array-typed columns", "JsonAccess::from_linear (path construction; the harness builds the nested path directly)"])
 
 # ------------------------------------------------------------------------------- C10 / C12 / C19
 _IO_STUBS = ["std::io::BufReader -> /verif/kani/shim.rs io::BufReader: a window on a symbolic file (content bytes, read position, visible length that each read may advance, read budget); read_line implements the documented BufRead::read_line contract",
@@ -265,9 +288,11 @@ PROPS["C09"] = dict(
                H("c03_arith_div_int_int", "execution", EX, shape="evaluate: INT / INT (divisor -16..16: zero divisor, MIN / -1)", timeout=900, cost=400, tier="thorough"),
                H("c03_unary_neg_int", "execution", EX, shape="evaluate: -INT", timeout=900, cost=30),
                H("c03_fn_abs_int", "execution", EX, shape="evaluate: abs(INT)", timeout=900, cost=40),
-               H("c03_subscript_len1", "execution", EX, shape="evaluate: a[i] for every i64 subscript, array of 1 element", timeout=900, cost=350),
+               H("c03_subscript_len1", "execution", EX, shape="evaluate: a[i] for every i64 subscript, array of 1 element", timeout=900, cost=350, solo=True),
                H("c09_fold_sum_int_overflow", "aggregate_execution", AG, shape="SUM over two full-range INTs", timeout=900, cost=120),
-               H("c09_fold_avg_int_overflow", "aggregate_execution", AG, shape="AVG over two full-range INTs", timeout=900, cost=120)],
+               H("c09_fold_avg_int_overflow", "aggregate_execution", AG, shape="AVG over two full-range INTs", timeout=900, cost=120),
+               H("c04_fold_percentile_all_null", "aggregate_execution", AG, shape="PERCENTILE over a group whose argument is NULL on every row (empty value list)", timeout=900, cost=60),
+               H("c04_fold_percentile_n1", "aggregate_execution", AG, shape="PERCENTILE(p) over one value, every p in [0,1]", timeout=900, cost=60, tier="thorough")],
     functions=["create_timestamp, ValueType::parse (Timestamp arm), Value::json_value (src/model.rs)", "ExpressionExecutionEngine::evaluate integer kernels (src/execution/expression_execution.rs)",
                "GroupAggregator::update running sums (src/execution/aggregate_execution.rs)"],
     bounds={"time zone": "symbolic: a local time maps to no instant, one, or two, with any offsets within a day", "integers": "all i64 (divisor / multiplier -16..=16)", "REAL": "all f64 bit patterns"},
